@@ -115,19 +115,25 @@ R = [
 
 def main():
     keys = {}
+    mult = {}
     for cfg in ("default", "css", "css_ext", "html_trace"):
         F = load_facts(cfg)
         roots = panics.render_roots(F)
         reach = F.reachable_from(roots)
         mag = Mag(F)
         okb, rp, _m = panics.shared_borrow_rule(F, roots)
+        per = {}
         for s in panics.inventory(F, reach):
             if panics.discharge(F, mag, s):
                 continue
             if s.kind == "borrow" and okb and s.b.id in rp:
                 continue
             keys.setdefault(s.key, (s.span, s.text))
-    out = ["# Reviewed panic sites (C01-A / C17-A), D3.  `site key :: readable site :: invariant it leans on / reason`.",
+            per[s.key] = per.get(s.key, 0) + 1
+        for k, n in per.items():
+            mult[k] = max(mult.get(k, 0), n)
+    out = ["# Reviewed panic sites (C01-A / C17-A), D3.  `site key [xN] :: readable site :: invariant it leans on / reason`.",
+           "# xN: the row covers N sites of that function with the same kind and canonical operands (default 1).",
            "# The key ends in a hash of the canonical, name-independent operand expressions (renaming a local keeps it).",
            "# Generated from tools/make_panic_table.py (the reasons are written by hand there); consumed as exact keys.",
            "# Named invariants: INV-LINE, INV-LEN, INV-STACK, INV-EST, INV-COLS, INV-REMAP, INV-COLSPAN1, INV-SHRINK, INV-ROWS,",
@@ -143,7 +149,7 @@ def main():
         if reason is None:
             missing.append((span, text))
         else:
-            out.append("%s :: %s :: %s" % (k, text, reason))
+            out.append("%s%s :: %s :: %s" % (k, " x%d" % mult[k] if mult.get(k, 1) > 1 else "", text, reason))
     with open(os.path.join(os.path.dirname(os.path.dirname(os.path.abspath(__file__))), "tables", "panic_sites.txt"), "w") as fh:
         fh.write("\n".join(out) + "\n")
     print("%d keys, %d rows written, %d without a reason" % (len(keys), len(out) - 5, len(missing)))
